@@ -68,6 +68,11 @@ func genTableContent(format string, rows int, r *Rng) string {
 		if rows == 0 {
 			b.WriteString("{\"id\":0,\"n\":0,\"s\":\"zero\"}\n")
 		}
+	case "fixed":
+		b.WriteString("id   n    s         \n")
+		for i := 1; i <= rows; i++ {
+			fmt.Fprintf(&b, "%-5d%-5d%-10s\n", i, i%5, word(i))
+		}
 	case "json":
 		b.WriteString("[")
 		for i := 1; i <= rows; i++ {
@@ -102,7 +107,11 @@ func (c10) Gen(seed uint64, tier string) *Scenario {
 		if tier == "thorough" && r.Bool(0.15) || r.Bool(0.04) {
 			rows = r.Range(150, 700)
 		}
-		t := c10Table{Name: fmt.Sprintf("t%d.%s", i, f), Format: f, Rows: rows}
+		ext := f
+		if f == "fixed" {
+			ext = "txt"
+		}
+		t := c10Table{Name: fmt.Sprintf("t%d.%s", i, ext), Format: f, Rows: rows}
 		m.Tables = append(m.Tables, t)
 		sc.Files = append(sc.Files, FileSpec{Name: t.Name, Content: genTableContent(f, rows, r)})
 	}
